@@ -407,6 +407,28 @@ fn step(ctx: &mut Ctx, w: &mut World, live: &mut Vec<Live>, acts: &[Act], k: usi
                 (Err(_), false) => {
                     ctx.eval();
                     ctx.count(&format!("map_err[{}]", class), 1);
+                    // A refused map must not leave anything behind: no page of this file may be mapped outside
+                    // the ranges of the live maps.
+                    let keep: Vec<(usize, usize)> = live.iter().map(|l| l.range(page)).collect();
+                    let mut left = 0usize;
+                    for v in vmas.iter().filter(|v| v.fid == fid) {
+                        let mut covered = 0usize;
+                        for &(klo, khi) in &keep {
+                            let (lo, hi) = (v.start.max(klo), v.end.min(khi));
+                            if lo < hi {
+                                covered += hi - lo;
+                            }
+                        }
+                        left += (v.end - v.start).saturating_sub(covered);
+                    }
+                    ctx.require(|| format!("MemoryMap.new[{}, refused but mapped]", class), left == 0, case, || json!({"observed": format!("{:#x} bytes of the refused file are mapped after MemoryMap::new returned Err", left), "expected": "nothing of a refused file is mapped", "mappings": show(&vmas)}));
+                    if left > 0 {
+                        let (regions, bytes) = w.sweep(&vmas, &keep);
+                        if regions > 0 {
+                            ctx.count("stale_mappings_cleaned", 1);
+                            ctx.count("stale_bytes_cleaned", bytes);
+                        }
+                    }
                     None
                 }
                 (Err(e), true) => {
